@@ -16,7 +16,7 @@ EXPLANATION = (
     "nothing according to the behaviour option, extra entries), and chdir(working_directory) happens in the child, before exec, "
     "iff one was given. strv_concat with symbolic arrays: deep copies, first array then second, NULL terminated, in a block "
     "sized for all of them. path_prepend_cwd: linear size comparison shows every allocation is at least getcwd capacity + "
-    "strlen(path) + 1 and all writes after a successful getcwd stay inside. Not decided: byte equality for arbitrary strings, PATH search. The prefix comes from a getcwd() of this very call (P4g: no directory remembered from an earlier start).")
+    "strlen(path) + 1 and all writes after a successful getcwd stay inside. Not decided: byte equality for arbitrary strings, PATH search. The prefix comes from a getcwd() of this very call (P4g: no directory remembered from an earlier start). Nothing is stored into the environment array after strv_concat built it (P2m); the composed program path is written once: nothing in front of the terminator is stored to after the program path was appended (P4b).")
 ASSUMPTIONS = [
     "clang 14 parser/CFG and the fact extractor are correct", "execvp passes argv and environ to the program unchanged; getcwd(buf, n) writes at most n bytes including the NUL",
     "strdup/malloc+strcpy copy the bytes of a string",
